@@ -101,6 +101,7 @@ func (s *State) clone() *State {
 }
 
 type Exec struct {
+	witnessAx bool
 	w        *World
 	ctx      *Ctx
 	assumes  []*Term
